@@ -16,6 +16,22 @@ func main() {
 		os.Exit(2)
 	}
 	switch os.Args[1] {
+	case "lints":
+		w, err := LoadWorld("/repo/v3", "/verif")
+		if err != nil {
+			fmt.Fprintln(os.Stderr, err)
+			os.Exit(2)
+		}
+		n := 0
+		for _, li := range w.Lints() {
+			n++
+			ex := "-"
+			if li.Execute != nil {
+				ex = funcDisplayName(li.Execute)
+			}
+			fmt.Printf("%-70s %-6s %-14s eff=%s ineff=%s %s %v\n", li.Name, li.Kind, li.Source, li.Eff.Format("2006-01-02"), li.Ineff.Format("2006-01-02"), ex, li.Problems)
+		}
+		fmt.Println(n, "registrations")
 	case "verify", "check", "ledger":
 		os.Exit(cmdCheck(os.Args[1], os.Args[2:]))
 	default:
